@@ -149,6 +149,14 @@ void run(Src &src, Case &c)
     if (variant == 0 && src.below(2) == 1) {
         variant = 4;
     }
+    if (gBound >= 10000) {
+        // sharded enumeration (bin/plans.d/C03.py): --bound = 100 * shard + 10000 * shards; a shard only runs its own cases
+        const long shards = gBound / 10000, shard = (gBound % 10000) / 100;
+        if (static_cast<long>((pi * 5 + variant) % static_cast<size_t>(shards)) != shard) {
+            c.cls("other-shard");
+            return;
+        }
+    }
     const Form &parent = forms[pi];
     ModelSpec spec;
     spec.name = "sweep";
